@@ -9,6 +9,14 @@ shutil.copy(os.path.join(seed, 'patch.diff'), dst)
 shutil.copy(os.path.join(seed, 'demo.py'), dst)
 meta = json.load(open(os.path.join(seed, 'meta.json')))
 res = json.load(open(result))
+# (re)check that the patched package byte-compiles (templates/main.tpl.py is a Jinja template, excluded)
+import subprocess, tempfile
+tmp = tempfile.mkdtemp(prefix='verif-keep-')
+shutil.copytree('/repo/dataflows', os.path.join(tmp, 'dataflows'), ignore=shutil.ignore_patterns('__pycache__'))
+ap = subprocess.run(['patch', '-p1', '-s', '-d', tmp, '-i', os.path.join(seed, 'patch.diff')]).returncode
+cp = subprocess.run([sys.executable, '-m', 'compileall', '-q', '-x', 'templates', os.path.join(tmp, 'dataflows')], capture_output=True).returncode
+shutil.rmtree(tmp)
+res['compiles'] = (ap == 0 and cp == 0)
 ok = res.get('apply') and res.get('compiles') and res['demo_rc_without'] == 0 and res['demo_rc_with'] != 0 and res['suite_rc_with'] == 0
 out = dict(property=meta['property'], summary=meta.get('summary'), needs=meta.get('needs'), files=meta.get('files'),
            author='independent sub-agent given only the property text and a scratch worktree',
